@@ -1,9 +1,423 @@
 --------------------------------- MODULE Rel ---------------------------------
-(* Relational properties over groups of sibling calls, and the object-level   *)
-(* operations (construction, copy, comparison).  -- stub, filled in below     *)
+(***************************************************************************)
+(* (1) Object-level operations: constructing, copying, comparing, ordering *)
+(*     and hashing ratings (properties C18, C20, parts of C19).            *)
+(* (2) Relational properties: formulas over a *group* of sibling calls     *)
+(*     (C03, C04, C05, C09, C10, C11, C14, C15, C16, C19, C20).  A driver  *)
+(*     tags sibling calls with a group id, the property the group is about *)
+(*     (gprop) and a role; whether two calls really are siblings is decided*)
+(*     here, from the recorded arguments (a mis-tagged group is an         *)
+(*     ill-formed trace, "bind.*", never a silent pass).                   *)
+(***************************************************************************)
 EXTENDS Props
 
-ObjVerdict(e, heap, Want) == [fails |-> {"bind.unknown_op:" \o e.op}, cls |-> {}, X |-> <<>>]
-ObjTouched(e) == {}
-GroupStep(grp, e, X, Want) == [grp |-> grp, fails |-> {}, cls |-> {}]
+---------------------------------------------------------------------------
+\* erasure: what a result may depend on - values, not identity, ids or names
+RECURSIVE Erase(_)
+Erase(p) == IF IsRating(p) THEN [PV("rating", "") EXCEPT !.mu = p.mu, !.sigma = p.sigma]
+            ELSE IF p.t \in {"list", "tuple"} THEN [p EXCEPT !.items = PMatV([k \in 1..Len(p.items) |-> Erase(p.items[k])])]
+            ELSE p
+\* ... or values and whether a rating belongs to the model's own class (for cross-model comparison)
+RECURSIVE EraseOwn(_, _)
+EraseOwn(p, kind) == IF IsRating(p) THEN [PV("rating", IF p.v = kind THEN "own" ELSE "foreign") EXCEPT !.mu = p.mu, !.sigma = p.sigma]
+                     ELSE IF p.t \in {"list", "tuple"} THEN [p EXCEPT !.items = PMatV([k \in 1..Len(p.items) |-> EraseOwn(p.items[k], kind)])]
+                     ELSE p
+
+ModelParams(m) == [kind |-> m.kind, mu |-> m.mu, sigma |-> m.sigma, beta |-> m.beta, kappa |-> m.kappa,
+                   tau |-> m.tau, limit |-> m.limit, gamma |-> m.gamma, extra |-> m.extra]
+ModelNoKind(m) == [ModelParams(m) EXCEPT !.kind = ""]
+OutErased(e) == [kind |-> e.out.kind, exc |-> e.out.exc, value |-> Erase(e.out.value)]
+
+\* numbers equal as numbers (so 1 and 1.0 agree) when both are numerals
+NumEq(a, b) == IF RIsReal(a) /\ RIsReal(b) THEN REq(a, b) ELSE a = b
+
+---------------------------------------------------------------------------
+\* (1) object operations
+HeapUids(heap) == {heap[r].uid : r \in DOMAIN heap}
+
+Fresh(leaf, heap) == leaf.ref \notin DOMAIN heap /\ leaf.uid # "" /\ leaf.uid \notin HeapUids(heap)
+
+NameOk(leaf, name) == IF IsNone(name) THEN leaf.nt = "none"
+                      ELSE IF name.t = "str" THEN leaf.nt = "str" /\ leaf.nm = name.v ELSE TRUE
+
+RatingVerdict(e, heap) ==
+  LET m == e.model
+      v == e.out.value
+      wantMu == IF IsNone(e.mu) THEN m.mu ELSE e.mu.v
+      wantSg == IF IsNone(e.sigma) THEN m.sigma ELSE e.sigma.v
+      argsOk == (IsNone(e.mu) \/ IsNum(e.mu)) /\ (IsNone(e.sigma) \/ IsNum(e.sigma)) /\ (IsNone(e.name) \/ e.name.t = "str")
+  IN  IF ~argsOk THEN {}
+      ELSE IF e.out.kind # "ok" \/ ~IsRatingOf(v, m.kind) THEN {"C20.rating_not_built"}
+      ELSE (IF v.mu # wantMu THEN {"C20.rating_mu"} ELSE {})
+           \cup (IF v.sigma # wantSg THEN {"C20.rating_sigma"} ELSE {})
+           \cup (IF ~NameOk(v, e.name) THEN {"C20.rating_name"} ELSE {})
+           \cup (IF ~Fresh(v, heap) THEN {"C20.id_not_fresh"} ELSE {})
+
+CreateWF(arg) == IsList(arg) /\ Len(arg.items) = 2 /\ IsNum(arg.items[1]) /\ IsNum(arg.items[2])
+CreateVerdict(e, heap) ==
+  LET v == e.out.value
+      nameOk == IsNone(e.name) \/ (e.name.t = "str" /\ e.name.v # "")
+  IN  IF ~CreateWF(e.arg) \/ ~nameOk THEN {}
+      ELSE IF e.out.kind # "ok" \/ ~IsRatingOf(v, e.model.kind) THEN {"C20.create_not_built"}
+      ELSE (IF v.mu # e.arg.items[1].v THEN {"C20.create_mu"} ELSE {})
+           \cup (IF v.sigma # e.arg.items[2].v THEN {"C20.create_sigma"} ELSE {})
+           \cup (IF ~NameOk(v, e.name) THEN {"C20.create_name"} ELSE {})
+           \cup (IF ~Fresh(v, heap) THEN {"C20.id_not_fresh"} ELSE {})
+           \cup (IF e.arg_after # e.arg THEN {"C20.create_modified_argument"} ELSE {})
+
+\* deepcopy: same nesting, same data at every leaf, every copy a distinct fresh object
+RECURSIVE CopyOf(_, _)
+CopyOf(c, o) ==
+  IF IsRating(o) THEN IsRating(c) /\ SameData(c, o) /\ c.ref # o.ref
+  ELSE IF o.t \in {"list", "tuple"} THEN /\ c.t = o.t /\ Len(c.items) = Len(o.items)
+                                         /\ \A k \in 1..Len(o.items) : CopyOf(c.items[k], o.items[k])
+  ELSE c = o
+DeepcopyVerdict(e, heap) ==
+  IF e.out.kind # "ok" THEN {"C20.deepcopy_raised:" \o e.out.exc}
+  ELSE (IF CopyOf(e.out.value, e.arg) THEN {} ELSE {"C20.deepcopy_differs"})
+       \cup (IF \E x \in Leaves(e.out.value) : x.ref \in DOMAIN heap \/ x.ref \in {y.ref : y \in Leaves(e.arg)}
+               THEN {"C20.deepcopy_not_distinct"} ELSE {})
+       \cup (IF e.arg_after # e.arg THEN {"C20.deepcopy_modified_original"} ELSE {})
+
+\* comparisons
+OrderOps == {"lt", "le", "gt", "ge"}
+CmpReal(op, x, y) == CASE op = "lt" -> RLt(x, y) [] op = "le" -> RLeq(x, y) [] op = "gt" -> RLt(y, x) [] op = "ge" -> RLeq(y, x)
+CmpVerdict(e) ==
+  LET a == e.a  b == e.b  op == e.cmpop
+      same == IsRating(a) /\ IsRating(b) /\ a.v = b.v
+      fin == same /\ RIsReal(a.mu) /\ RIsReal(a.sigma) /\ RIsReal(b.mu) /\ RIsReal(b.sigma)
+      isBool(x) == e.out.kind = "ok" /\ e.out.value.t = "bool" /\ e.out.value.v = (IF x THEN "1" ELSE "0")
+      pure == (IF e.a_after # a \/ e.b_after # b THEN {"C18.comparison_modified_operand"} ELSE {})
+  IN  IF ~IsRating(a) THEN {}
+      ELSE pure \cup
+       (IF same
+         THEN IF ~fin THEN {}
+              ELSE IF op \in OrderOps
+                     THEN IF e.oa.t # "float" \/ e.ob.t # "float" \/ ~RIsReal(e.oa.v) \/ ~RIsReal(e.ob.v) THEN {"C18.no_ordinal"}
+                          ELSE IF isBool(CmpReal(op, e.oa.v, e.ob.v)) THEN {} ELSE {"C18.order_disagrees_with_ordinal:" \o op}
+                   ELSE LET eq == REq(a.mu, b.mu) /\ REq(a.sigma, b.sigma)
+                        IN  IF isBool(IF op = "eq" THEN eq ELSE ~eq) THEN {} ELSE {"C18.equality:" \o op}
+         ELSE IF op \in OrderOps
+                THEN IF e.out.kind = "raise" /\ e.out.exc = "ValueError" THEN {}
+                     ELSE {"C18.foreign_operand_not_rejected:" \o op}
+              ELSE IF isBool(op = "ne") THEN {} ELSE {"C18.foreign_operand_equality:" \o op})
+
+\* ordinal(z) = mu - z*sigma to within the rounding of the two operations
+OrdinalVerdict(e) ==
+  LET a == e.a
+      z == IF IsNone(e.z) THEN "3" ELSE e.z.v
+      ok == IsRating(a) /\ RIsReal(a.mu) /\ RIsReal(a.sigma) /\ (IsNone(e.z) \/ IsFinite(e.z))
+  IN  IF ~ok THEN {}
+      ELSE IF e.out.kind # "ok" \/ e.out.value.t \notin {"float", "int"} \/ ~RIsReal(e.out.value.v) THEN {"C18.ordinal_no_value"}
+      ELSE LET want == a.mu -- (z ** a.sigma)
+               tol  == RUlp(a.mu) ++ RUlp(z ** a.sigma) ++ RUlp(want)
+           IN  (IF RWithin(e.out.value.v, want, tol) THEN {} ELSE {"C18.ordinal_value"})
+               \cup (IF e.a_after # a THEN {"C18.ordinal_modified_rating"} ELSE {})
+
+\* sorted(): a permutation of the input, in non-decreasing order of the observed ordinals
+SortedVerdict(e) ==
+  LET arg == e.arg  out == e.out.value
+      ok == IsList(arg) /\ \A k \in 1..Len(arg.items) : IsRating(arg.items[k]) /\ arg.items[k].v = arg.items[1].v
+  IN  IF ~ok \/ ~IsList(e.ords) THEN {}
+      ELSE IF e.out.kind # "ok" \/ ~IsList(out) \/ Len(out.items) # Len(arg.items) THEN {"C18.sorted_failed"}
+      ELSE LET n == Len(arg.items)
+               ord(ref) == LET k == CHOOSE k \in 1..n : arg.items[k].ref = ref IN e.ords.items[k].v
+               perm == /\ \A k \in 1..n : \E j \in 1..n : out.items[j] = arg.items[k]
+                       /\ \A j \in 1..n : \E k \in 1..n : out.items[j] = arg.items[k]
+           IN  IF ~perm THEN {"C18.sorted_not_permutation"}
+               ELSE IF \A j \in 1..(n - 1) : RLeq(ord(out.items[j].ref), ord(out.items[j + 1].ref)) THEN {}
+               ELSE {"C18.sorted_not_by_ordinal"}
+
+ObjVerdict(e, heap, Want) ==
+  LET w20 == "C20" \in Want
+      w18 == "C18" \in Want
+      f == CASE e.op = "rating"   -> IF w20 THEN RatingVerdict(e, heap) ELSE {}
+             [] e.op = "create"   -> IF w20 THEN CreateVerdict(e, heap) ELSE {}
+             [] e.op = "deepcopy" -> IF w20 THEN DeepcopyVerdict(e, heap) ELSE {}
+             [] e.op = "cmp"      -> IF w18 THEN CmpVerdict(e) ELSE {}
+             [] e.op = "ordinal"  -> IF w18 THEN OrdinalVerdict(e) ELSE {}
+             [] e.op = "sorted"   -> IF w18 THEN SortedVerdict(e) ELSE {}
+             [] e.op = "hash"     -> {}
+             [] OTHER             -> {"bind.unknown_op:" \o e.op}
+  IN  [fails |-> f, cls |-> {"op=" \o e.op} \cup (IF e.out.kind = "ok" THEN {"ok"} ELSE {"raise:" \o e.out.exc}), X |-> <<>>]
+
+ObjTouched(e) ==
+  CASE e.op \in {"rating", "create"} -> IF e.out.kind = "ok" THEN {e.out.value} ELSE {}
+    [] e.op = "deepcopy" -> {e.arg_after} \cup (IF e.out.kind = "ok" THEN {e.out.value} ELSE {})
+    [] e.op = "cmp"      -> {e.a_after, e.b_after}
+    [] e.op = "ordinal"  -> {e.a_after}
+    [] OTHER             -> {}
+
+---------------------------------------------------------------------------
+\* (2) groups
+GP(e, clause) == e.gprop \o "." \o clause
+
+IsRateEv(e) == e.op = "rate"
+IsPredEv(e) == e.op \in {"win", "draw", "rank"}
+
+\* the arguments of a rate/predict call, erased
+ArgsErased(e) ==
+  IF IsRateEv(e) THEN <<Erase(e.teams), e.ranks, e.scores, e.tau, e.limit>>
+  ELSE IF IsPredEv(e) THEN <<Erase(e.teams)>>
+  ELSE IF e.op = "hash" THEN <<e.a.uid, e.a.mu, e.a.sigma>>
+  ELSE <<>>
+
+\* permutations carried in aux: aux = [tp, mps]; new team k is base team tp[k], its member l is base member mps[k][l]
+AuxInts(p) == PMatV([k \in 1..Len(p.items) |-> RToInt(p.items[k].v)])
+TP(e)  == AuxInts(e.aux.items[1])
+MPS(e) == PMatV([k \in 1..Len(e.aux.items[2].items) |-> AuxInts(e.aux.items[2].items[k])])
+IsPermOf(p, n) == Len(p) = n /\ \A i \in 1..n : \E k \in 1..n : p[k] = i
+
+PermutedTeamsMatch(b, e) ==
+  LET n == N(b)  tp == TP(e)  mps == MPS(e)
+  IN  /\ N(e) = n /\ IsPermOf(tp, n) /\ Len(mps) = n
+      /\ \A k \in 1..n : /\ Len(e.teams.items[k].items) = Len(b.teams.items[tp[k]].items)
+                         /\ IsPermOf(mps[k], Len(e.teams.items[k].items))
+                         /\ \A l \in 1..Len(e.teams.items[k].items) :
+                               SameValues(Pre(e, k, l), Pre(b, tp[k], mps[k][l]))
+
+\* group state
+NoGroup == [id |-> "", evs |-> <<>>]
+First(g, role) == LET K == {k \in 1..Len(g.evs) : g.evs[k].e.role = role} IN g.evs[CHOOSE k \in K : \A j \in K : k <= j]
+Has(g, role) == \E k \in 1..Len(g.evs) : g.evs[k].e.role = role
+
+FloatOf(p) == p.v
+WinVec(e) == PMatV([k \in 1..Len(e.out.value.items) |-> e.out.value.items[k].v])
+RankProbVec(e) == PMatV([k \in 1..Len(e.out.value.items) |-> e.out.value.items[k].items[2].v])
+TeamMuTotal(e, i) == RSumSeq(PMatV([j \in MemIdx(e, i) |-> Pre(e, i, j).mu]))
+SigmasEqual(b, e) == N(b) = N(e) /\ \A i \in TeamIdx(b) : Len(e.teams.items[i].items) = Len(b.teams.items[i].items)
+                        /\ \A j \in MemIdx(b, i) : Pre(e, i, j).sigma = Pre(b, i, j).sigma
+ProbTol == "1E-12"
+
+\* tolerance of the comparison of two observed posteriors
+TwoTol(x, y, fld) == IF fld = "mu" THEN x.tmu ++ y.tmu ELSE x.tsigma ++ y.tsigma
+
+Relation(g, e, X) ==
+  LET role == e.role
+      b    == First(g, "base").e
+      bX   == First(g, "base").X
+      okBoth == Ok(b) /\ Ok(e)
+  IN
+  CASE role = "base" -> {}
+
+    \* identical inputs (values, parameters, arguments) => identical outputs      [C14, C20, C19]
+    [] role = "same" ->
+         IF ~(b.op = e.op /\ ArgsErased(b) = ArgsErased(e) /\ (b.op = "hash" \/ ModelParams(b.model) = ModelParams(e.model)))
+           THEN {"bind.group_same_inputs_differ"}
+         ELSE IF OutErased(b) = OutErased(e) THEN {} ELSE {GP(e, "same_inputs_different_result")}
+
+    \* same weak order of the teams, however it is written => identical outputs   [C03]
+    [] role = "order" ->
+         IF ~(IsRateEv(b) /\ IsRateEv(e) /\ Erase(b.teams) = Erase(e.teams) /\ b.tau = e.tau /\ b.limit = e.limit
+              /\ ModelParams(b.model) = ModelParams(e.model)
+              /\ WFRateCall(b.model.kind, Call(b)) /\ WFRateCall(e.model.kind, Call(e))
+              /\ SameOrder(OutcomeVals(Call(b)), OutcomeVals(Call(e))))
+           THEN {"bind.group_order_not_equivalent"}
+         ELSE IF OutErased(b) = OutErased(e) THEN {} ELSE {GP(e, "same_order_different_result")}
+
+    \* same effective options => identical outputs                                [C15]
+    [] role = "effopts" ->
+         IF ~(IsRateEv(b) /\ IsRateEv(e) /\ Erase(b.teams) = Erase(e.teams) /\ b.ranks = e.ranks /\ b.scores = e.scores
+              /\ [ModelParams(b.model) EXCEPT !.tau = "", !.limit = ""] = [ModelParams(e.model) EXCEPT !.tau = "", !.limit = ""]
+              /\ WFRateCall(b.model.kind, Call(b)) /\ Computable(b.model, Call(b)) /\ Computable(e.model, Call(e))
+              /\ REq(EffTau(b.model, Call(b)), EffTau(e.model, Call(e)))
+              /\ EffLimit(b.model, Call(b)) = EffLimit(e.model, Call(e)))
+           THEN {"bind.group_effopts_differ"}
+         ELSE IF OutErased(b) = OutErased(e) THEN {} ELSE {GP(e, "same_effective_options_different_result")}
+
+    \* the same game presented in another order                                   [C04, C09, C10]
+    [] role = "perm" ->
+         IF ~(b.op = e.op /\ ModelParams(b.model) = ModelParams(e.model) /\ PermutedTeamsMatch(b, e)
+              /\ (IsRateEv(b) => /\ b.tau = e.tau /\ b.limit = e.limit
+                                 /\ WFRateCall(b.model.kind, Call(b)) /\ WFRateCall(e.model.kind, Call(e))
+                                 /\ LET vb == OutcomeVals(Call(b))  ve == OutcomeVals(Call(e))  tp == TP(e)
+                                    IN  SameOrder([k \in 1..N(e) |-> vb[tp[k]]], ve)))
+           THEN {"bind.group_perm_mismatch"}
+         ELSE IF ~okBoth THEN {}
+         ELSE IF IsRateEv(e) THEN
+           IF X = <<>> \/ bX = <<>> \/ ~HasShape(e) \/ ~HasShape(b) THEN {}
+           ELSE LET tp == TP(e)  mps == MPS(e)
+                    vb == OutcomeVals(Call(b))
+                    \* partial pairing: only permutations that keep mutually tied teams in their relative order
+                    keeps == \A k1, k2 \in 1..N(e) : (k1 < k2 /\ ValEq(vb[tp[k1]], vb[tp[k2]])) => tp[k1] < tp[k2]
+                    bad == {s \in AllSlots(e) :
+                              LET o == Obs(e, s[1], s[2])  p == Obs(b, tp[s[1]], mps[s[1]][s[2]])
+                                  x == X[s[1]][s[2]]       y == bX[tp[s[1]]][mps[s[1]][s[2]]]
+                              IN  ~x.guard /\ ~y.guard /\
+                                  ~(RWithin(o.mu, p.mu, TwoTol(x, y, "mu")) /\ RWithin(o.sigma, p.sigma, TwoTol(x, y, "sigma")))}
+                IN  IF IsPart(e.model.kind) /\ ~keeps THEN {}
+                    ELSE {Slot(GP(e, "not_equivariant"), s[1], s[2]) : s \in bad}
+         ELSE IF e.op = "win" THEN
+           LET tp == TP(e)  wb == WinVec(b)  we == WinVec(e)
+           IN  IF \A k \in 1..N(e) : RWithin(we[k], wb[tp[k]], ProbTol) THEN {} ELSE {GP(e, "win_not_permuted")}
+         ELSE IF e.op = "draw" THEN
+           IF RWithin(e.out.value.v, b.out.value.v, ProbTol) THEN {} ELSE {GP(e, "draw_depends_on_order")}
+         ELSE {}
+
+    \* one member's mu raised                                                     [C09]
+    [] role = "inc" ->
+         LET i == RToInt(e.aux.items[1].v)  j == RToInt(e.aux.items[2].v)
+         IN  IF ~(b.op = "win" /\ e.op = "win" /\ ModelParams(b.model) = ModelParams(e.model) /\ SigmasEqual(b, e)
+                  /\ \A s \in AllSlots(b) : IF s = <<i, j>> THEN RLeq(Pre(b, i, j).mu, Pre(e, i, j).mu)
+                                            ELSE Pre(e, s[1], s[2]).mu = Pre(b, s[1], s[2]).mu)
+               THEN {"bind.group_inc_mismatch"}
+             ELSE IF ~okBoth THEN {}
+             ELSE LET wb == WinVec(b)  we == WinVec(e)  sl == "8" ** Eps
+                  IN  (IF RLt(we[i] ++ sl, wb[i]) THEN {GP(e, "own_probability_lowered")} ELSE {})
+                      \cup (IF \E k \in 1..N(e) : k # i /\ RLt(wb[k] ++ sl, we[k]) THEN {GP(e, "other_probability_raised")} ELSE {})
+
+    \* two teams, wider gap between the totals                                    [C10]
+    [] role = "gap" ->
+         IF ~(b.op = "draw" /\ e.op = "draw" /\ N(b) = 2 /\ ModelParams(b.model) = ModelParams(e.model) /\ SigmasEqual(b, e)
+              /\ RLeq(RAbs(TeamMuTotal(b, 1) -- TeamMuTotal(b, 2)), RAbs(TeamMuTotal(e, 1) -- TeamMuTotal(e, 2))))
+           THEN {"bind.group_gap_mismatch"}
+         ELSE IF ~okBoth THEN {}
+         ELSE IF RLeq(e.out.value.v, b.out.value.v ++ ("8" ** Eps)) THEN {} ELSE {GP(e, "draw_increases_with_gap")}
+
+    \* all totals equalised, sigmas unchanged                                     [C10]
+    [] role = "equalised" ->
+         IF ~(b.op = "draw" /\ e.op = "draw" /\ ModelParams(b.model) = ModelParams(e.model) /\ SigmasEqual(b, e)
+              /\ \A i \in TeamIdx(e) : RWithin(TeamMuTotal(e, i), TeamMuTotal(e, 1), "1E-9" ** ("1" ++ RAbs(TeamMuTotal(e, 1)))))
+           THEN {"bind.group_equalised_mismatch"}
+         ELSE IF ~okBoth THEN {}
+         ELSE IF RLeq(b.out.value.v, e.out.value.v ++ ("64" ** Eps)) THEN {} ELSE {GP(e, "draw_lowered_by_equalising")}
+
+    \* predict_rank + predict_draw = 1 for three or more teams                    [C11]
+    [] role = "rank_draw" ->
+         IF ~(b.op = "rank" /\ e.op = "draw" /\ ModelParams(b.model) = ModelParams(e.model) /\ Erase(b.teams) = Erase(e.teams))
+           THEN {"bind.group_rank_draw_mismatch"}
+         ELSE IF ~okBoth \/ N(e) < 3 \/ ~IsRankList(b.out.value, N(b)) THEN {}
+         ELSE IF RWithin(RSumSeq(RankProbVec(b)) ++ e.out.value.v, "1", ProbTol) THEN {} ELSE {GP(e, "rank_plus_draw_not_one")}
+
+    \* unit of the scale: everything multiplied by k                              [C16]
+    [] role = "scaled" ->
+         LET k == e.aux.items[1].v
+             near(a, c) == RWithin(a, k ** c, "4" ** RUlp(a))
+             mb == b.model  me == e.model
+         IN  IF ~(b.op = e.op /\ me.kind = mb.kind /\ me.kappa = mb.kappa /\ me.gamma = mb.gamma /\ me.limit = mb.limit
+                  /\ mb.gamma \in {"default", "one", "zero", "big"}
+                  /\ near(me.beta, mb.beta) /\ near(me.tau, mb.tau) /\ near(me.mu, mb.mu) /\ near(me.sigma, mb.sigma)
+                  /\ N(b) = N(e) /\ \A i \in TeamIdx(b) : Len(e.teams.items[i].items) = Len(b.teams.items[i].items)
+                  /\ \A s \in AllSlots(b) : near(Pre(e, s[1], s[2]).mu, Pre(b, s[1], s[2]).mu) /\ near(Pre(e, s[1], s[2]).sigma, Pre(b, s[1], s[2]).sigma)
+                  /\ (IsRateEv(b) => b.ranks = e.ranks /\ b.scores = e.scores /\ b.limit = e.limit /\ IsNone(b.tau) /\ IsNone(e.tau)))
+               THEN {"bind.group_scaled_mismatch"}
+             ELSE IF ~okBoth THEN {}
+             ELSE IF IsRateEv(e) THEN
+               IF IsTM(me.kind) \/ X = <<>> \/ bX = <<>> \/ ~HasShape(e) \/ ~HasShape(b) THEN {}
+               ELSE LET bad == {s \in AllSlots(e) :
+                                  LET o == Obs(e, s[1], s[2])  p == Obs(b, s[1], s[2])
+                                      x == X[s[1]][s[2]]       y == bX[s[1]][s[2]]
+                                  IN  ~(RWithin(o.mu, k ** p.mu, "2" ** (x.tmu ++ (k ** y.tmu)))
+                                        /\ RWithin(o.sigma, k ** p.sigma, "2" ** (x.tsigma ++ (k ** y.tsigma))))}
+                    IN  {Slot(GP(e, "not_scale_covariant"), s[1], s[2]) : s \in bad}
+             ELSE IF e.op = "win" THEN
+               (IF \A i \in 1..N(e) : RWithin(WinVec(e)[i], WinVec(b)[i], ProbTol) THEN {} ELSE {GP(e, "win_depends_on_unit")})
+             ELSE IF e.op = "draw" THEN
+               (IF RWithin(e.out.value.v, b.out.value.v, ProbTol) THEN {} ELSE {GP(e, "draw_depends_on_unit")})
+             ELSE (IF \A i \in 1..N(e) : RWithin(RankProbVec(e)[i], RankProbVec(b)[i], ProbTol)
+                                         /\ e.out.value.items[i].items[1].v = b.out.value.items[i].items[1].v
+                   THEN {} ELSE {GP(e, "rank_depends_on_unit")})
+
+    \* origin of the scale: a constant added to every mu (equal team sizes)       [C16]
+    [] role = "shifted" ->
+         LET d == e.aux.items[1].v
+             near(a, c) == RWithin(a, c ++ d, "4" ** (RUlp(a) ++ RUlp(c)))
+         IN  IF ~(b.op = e.op /\ [ModelParams(b.model) EXCEPT !.mu = ""] = [ModelParams(e.model) EXCEPT !.mu = ""]
+                  /\ b.model.gamma \in {"default", "one", "zero", "big"}
+                  /\ SigmasEqual(b, e) /\ \A i \in TeamIdx(b) : Len(b.teams.items[i].items) = Len(b.teams.items[1].items)
+                  /\ \A s \in AllSlots(b) : near(Pre(e, s[1], s[2]).mu, Pre(b, s[1], s[2]).mu)
+                  /\ (IsRateEv(b) => b.ranks = e.ranks /\ b.scores = e.scores /\ b.limit = e.limit /\ b.tau = e.tau))
+               THEN {"bind.group_shifted_mismatch"}
+             ELSE IF ~okBoth THEN {}
+             ELSE IF IsRateEv(e) THEN
+               IF X = <<>> \/ bX = <<>> \/ ~HasShape(e) \/ ~HasShape(b) THEN {}
+               ELSE LET bad == {s \in AllSlots(e) :
+                                  LET o == Obs(e, s[1], s[2])  p == Obs(b, s[1], s[2])
+                                      x == X[s[1]][s[2]]       y == bX[s[1]][s[2]]
+                                  IN  ~x.guard /\ ~y.guard /\
+                                      ~(RWithin(o.mu, p.mu ++ d, "2" ** (x.tmu ++ y.tmu))
+                                        /\ RWithin(o.sigma, p.sigma, "2" ** (x.tsigma ++ y.tsigma)))}
+                    IN  {Slot(GP(e, "not_shift_covariant"), s[1], s[2]) : s \in bad}
+             ELSE IF e.op = "win" THEN
+               (IF \A i \in 1..N(e) : RWithin(WinVec(e)[i], WinVec(b)[i], ProbTol) THEN {} ELSE {GP(e, "win_depends_on_origin")})
+             ELSE IF e.op = "draw" THEN
+               (IF RWithin(e.out.value.v, b.out.value.v, ProbTol) THEN {} ELSE {GP(e, "draw_depends_on_origin")})
+             ELSE (IF \A i \in 1..N(e) : RWithin(RankProbVec(e)[i], RankProbVec(b)[i], ProbTol) THEN {} ELSE {GP(e, "rank_depends_on_origin")})
+
+    \* the same call on another of the five model classes                         [C19]
+    [] role = "model" ->
+         IF ~(b.op = e.op /\ ModelNoKind(b.model) = ModelNoKind(e.model)
+              /\ EraseOwn(b.teams, b.model.kind) = EraseOwn(e.teams, e.model.kind)
+              /\ (IsRateEv(b) => b.ranks = e.ranks /\ b.scores = e.scores /\ b.tau = e.tau /\ b.limit = e.limit))
+           THEN {"bind.group_model_mismatch"}
+         ELSE (IF b.out.kind # e.out.kind THEN {GP(e, "accepts_differently:" \o b.model.kind \o "/" \o e.model.kind)}
+               ELSE IF ~Ok(e) THEN (IF b.out.exc = e.out.exc THEN {} ELSE {GP(e, "exception_class_differs:" \o b.out.exc \o "/" \o e.out.exc)})
+               ELSE IF IsPredEv(e) THEN (IF OutErased(b) = OutErased(e) THEN {} ELSE {GP(e, "prediction_differs:" \o b.model.kind \o "/" \o e.model.kind)})
+               ELSE IF IsRateEv(e) /\ {b.model.kind, e.model.kind} = {"BTF", "BTP"} /\ N(e) = 2
+                      THEN (IF OutErased(b) = OutErased(e) THEN {} ELSE {GP(e, "bt_part_differs_from_full_on_two_teams")})
+               ELSE {})
+
+    \* two-team game under the three outcomes: roles base = team 1 wins, "draw", "loss"   [C05]
+    [] role \in {"draw", "loss"} ->
+         IF ~(IsRateEv(b) /\ IsRateEv(e) /\ N(b) = 2 /\ ModelParams(b.model) = ModelParams(e.model)
+              /\ Erase(b.teams) = Erase(e.teams) /\ b.tau = e.tau /\ b.limit = e.limit
+              /\ WFRateCall(b.model.kind, Call(b)) /\ WFRateCall(e.model.kind, Call(e))
+              /\ LET vb == OutcomeVals(Call(b))  ve == OutcomeVals(Call(e))
+                 IN  ValLt(vb[1], vb[2]) /\ (IF role = "draw" THEN ValEq(ve[1], ve[2]) ELSE ValLt(ve[2], ve[1])))
+           THEN {"bind.group_outcome_mismatch"}
+         ELSE IF ~okBoth \/ X = <<>> \/ bX = <<>> \/ ~HasShape(e) \/ ~HasShape(b) THEN {}
+         ELSE
+           LET m == e.model
+               S == AllSlots(e)
+               sgn(s) == IF s[1] = 1 THEN "1" ELSE "-1"          \* team 1 won in the base game
+               tol(s) == "2" ** (X[s[1]][s[2]].tmu ++ bX[s[1]][s[2]].tmu)
+               \* w >= d >= l for team 1, reversed for team 2: sgn * (base - this) >= -tol
+               ordBad == {s \in S : RLt(sgn(s) ** (Obs(b, s[1], s[2]).mu -- Obs(e, s[1], s[2]).mu), RNeg(tol(s)))}
+               \* prior between loss and win
+               priorBad == {s \in S : \/ RLt(sgn(s) ** (Obs(b, s[1], s[2]).mu -- Pre(b, s[1], s[2]).mu), RNeg(tol(s)))
+                                      \/ (role = "loss" /\ RLt(sgn(s) ** (Pre(e, s[1], s[2]).mu -- Obs(e, s[1], s[2]).mu), RNeg(tol(s))))}
+               \* a draw never raises the stronger team or lowers the weaker one (TM: beyond the draw-margin term)
+               t1 == TeamMuTotal(e, 1)  t2 == TeamMuTotal(e, 2)
+               s2(i) == RSumSeq(PMatV([j \in MemIdx(e, i) |-> X[i][j].s2]))
+               c2 == LET c0 == s2(1) ++ s2(2) ++ R2(RSq(m.beta)) IN IF m.kind = "TMP" THEN "4" ** c0 ELSE c0
+               allow(s) == tol(s) ++ (IF IsTM(m.kind) THEN (R2(m.kappa) ** X[s[1]][s[2]].s2) // c2 ELSE "0")
+               strong == IF RLt(t2, t1) THEN 1 ELSE IF RLt(t1, t2) THEN 2 ELSE 0
+               drawBad == IF role # "draw" \/ strong = 0 THEN {}
+                          ELSE {s \in S : LET dm == Obs(e, s[1], s[2]).mu -- Pre(e, s[1], s[2]).mu
+                                          IN  IF s[1] = strong THEN RLt(allow(s), dm) ELSE RLt(dm, RNeg(allow(s)))}
+               guard == \E s \in S : X[s[1]][s[2]].guard \/ bX[s[1]][s[2]].guard
+           IN  IF guard THEN {} ELSE
+               {Slot(GP(e, "outcome_order:" \o role), s[1], s[2]) : s \in ordBad}
+               \cup {Slot(GP(e, "prior_not_between_loss_and_win"), s[1], s[2]) : s \in priorBad}
+               \cup {Slot(GP(e, "draw_moves_wrong_way"), s[1], s[2]) : s \in drawBad}
+
+    \* no ties: team i exchanges places with a better-placed team j (aux = [i, j])   [C05]
+    [] role = "swap" ->
+         LET i == RToInt(e.aux.items[1].v)  j == RToInt(e.aux.items[2].v)
+         IN  IF ~(IsRateEv(b) /\ IsRateEv(e) /\ ModelParams(b.model) = ModelParams(e.model)
+                  /\ Erase(b.teams) = Erase(e.teams) /\ b.tau = e.tau /\ b.limit = e.limit
+                  /\ WFRateCall(b.model.kind, Call(b)) /\ WFRateCall(e.model.kind, Call(e))
+                  /\ LET vb == OutcomeVals(Call(b))  ve == OutcomeVals(Call(e))
+                     IN  /\ \A p, r \in 1..N(b) : p # r => ~ValEq(vb[p], vb[r])
+                         /\ ValLt(vb[j], vb[i])
+                         /\ SameOrder(ve, [k \in 1..N(b) |-> IF k = i THEN vb[j] ELSE IF k = j THEN vb[i] ELSE vb[k]]))
+               THEN {"bind.group_swap_mismatch"}
+             ELSE IF ~okBoth \/ X = <<>> \/ bX = <<>> \/ ~HasShape(e) \/ ~HasShape(b) \/ IsPart(e.model.kind) THEN {}
+             ELSE LET bad == {l \in MemIdx(e, i) : ~X[i][l].guard /\ ~bX[i][l].guard /\
+                                 RLt(Obs(e, i, l).mu, Obs(b, i, l).mu -- ("2" ** (X[i][l].tmu ++ bX[i][l].tmu)))}
+                  IN  {Slot(GP(e, "better_place_lowers_mu"), i, l) : l \in bad}
+
+    [] OTHER -> {"bind.unknown_role:" \o role}
+
+GroupStep(g, e, X, Want) ==
+  IF e.group = "" THEN [grp |-> g, fails |-> {}, cls |-> {}]
+  ELSE LET rec == [e |-> e, X |-> X]
+       IN  IF e.group # g.id
+             THEN [grp |-> [id |-> e.group, evs |-> <<rec>>],
+                   fails |-> IF e.role = "base" THEN {} ELSE {"bind.group_without_base"},
+                   cls |-> {"group:" \o e.gprop \o ":" \o e.role}]
+             ELSE [grp |-> [g EXCEPT !.evs = Append(@, rec)],
+                   fails |-> IF ~Has(g, "base") THEN {"bind.group_without_base"}
+                             ELSE IF e.gprop \in Want THEN Relation(g, e, X) ELSE {},
+                   cls |-> {"group:" \o e.gprop \o ":" \o e.role}]
 =============================================================================
